@@ -3,7 +3,7 @@
 From Coq Require Import List NArith Bool.
 From Stef Require Import Bits BitIO Varint Codecs Frame Reader.
 From Stef.Schema Require Import Schema.
-From Stef.Idl Require Import Lexer Ast Parser Resolve Printer WireSchema WireSchemaFacts WireOrderFacts PrinterFacts.
+From Stef.Idl Require Import Lexer Ast Parser Resolve Printer WireSchema WireSchemaFacts WireOrderFacts PrinterFacts IndexFacts.
 Import ListNotations.
 Open Scope N_scope.
 
@@ -33,6 +33,16 @@ Theorem C13_wire_schema_order : forall sc, wf_schema sc -> forall root, root < n
   new_wire_schema sc root = Some (own_counts sc root).
 Proof. exact wire_schema_order. Qed.
 Print Assumptions C13_wire_schema_order.
+
+(* the same for everything the parser accepts: for every input that parses and every struct of the
+   resulting schema (in particular every root), schema.NewWireSchema (wire_counts) returns the
+   counts in the Init consumption order of the numbered schema *)
+Theorem C13_wire_schema_order_parsed : forall input s w root,
+  parse input = OOk s w -> In root (map is_name (i_structs s)) ->
+  exists sc r, index_schema s = Some sc /\ index_in is_name (i_structs s) root 0 = Some r /\
+               wire_counts s root = POk (own_counts sc r).
+Proof. exact parse_wire_order. Qed.
+Print Assumptions C13_wire_schema_order_parsed.
 
 (* D8 (fixed by 7ccc306): the printer as it was dropped the dictionary of array elements ... *)
 Theorem C13_print_parse_refuted_before_fix_array_dict :
